@@ -256,6 +256,8 @@ class Comparer(object):
         if a.k != b.k:
             self.fail(a, b, 'different statement kind (%s vs %s)' % (a.k, b.k))
         k = a.k
+        if self.trial and k in ('If', 'For', 'While', 'Do', 'Switch'):
+            return      # look-ahead alignment only: same kind of compound statement is enough to resynchronise
         if k == 'Var':
             self.var(a, b)
             self.expr(a.c[0], b.c[0])
